@@ -1,3 +1,4 @@
 /- Props/C09.lean — property C09: all theorems live in namespace CM.Props.C09, split over two files. -/
+import CircuitProofs.Props.C09Tie
 import CircuitProofs.Props.C09Seq
 import CircuitProofs.Props.C09Conc
